@@ -60,6 +60,15 @@ func (tree *ParserT) parseString(qStart, qEnd rune, exec bool) ([]rune, error) {
 			value = append(value, r)
 			tree.crLf()
 
+		case r == '\\' && qStart == '"' && !exec && tree.charPos+1 < len(tree.expression):
+			// backslash escapes are honoured inside double quotes when the code is
+			// executed, so an escaped character (eg `\"`) cannot end the string here
+			value = append(value, r, tree.expression[tree.charPos+1])
+			tree.charPos++
+			if tree.expression[tree.charPos] == '\n' {
+				tree.crLf()
+			}
+
 		case r == qEnd:
 			// end quote
 			goto endString
